@@ -9,11 +9,11 @@ sys.path.insert(0, os.path.dirname(os.path.abspath(__file__)))
 import framework  # noqa: E402
 import coqrun  # noqa: E402
 import frontcases as fc  # noqa: E402
-from coqrun import zlist  # noqa: E402
+from coqrun import z, zlist  # noqa: E402
 
 PID = "C10"
 TARGETS = ["Properties/C10.vo"]
-MODEL_TARGETS = ["Model/Lexer.vo", "Model/Printer.vo"]
+MODEL_TARGETS = ["Model/Lexer.vo", "Model/Printer.vo", "Model/IntLit.vo"]
 ASSUMPTIONS = [
     "PARTIAL: the theorem is the string-literal codec (printer output read back by the lexer, every string, any "
     "context); the instruction words of --obfuscate are the C05 codec theorems; printing of integer, register and "
@@ -27,6 +27,74 @@ From Hera.Model Require Import Lexer Printer.
 Import ListNotations.
 Open Scope Z_scope.
 """
+
+
+INT_HEADER = """From Coq Require Import ZArith List.
+From Hera.Model Require Import IntLit.
+Import ListNotations.
+Open Scope Z_scope.
+Definition enc_opt (o : option Z) : list Z := match o with Some v => [1; v] | None => [0] end.
+"""
+
+
+def intlit_correspondence(rng, n, disagreements, spec_failures, model_available):
+    """Integer operands: what the listing prints for a value (str(op) of a parsed INTEGER(n); OPCODE(0x..) of
+    main.py's obfuscate form) vs Model/IntLit.print_int / print_opcode_word; the value the real parser gives a literal
+    (decimal, 0x/0o/0b in both cases, zero-prefixed octal, invalid ones) vs Model/IntLit.read_value; and, on the real
+    code alone, printed values read back."""
+    from hera.data import Settings
+    from hera.parser import parse
+    st = {"int_values": 0, "int_literals": 0, "int_model_agree": 0}
+
+    def real_value(text):
+        try:
+            ops, msgs = parse("INTEGER(%s)" % text, settings=Settings(color=False))
+        except BaseException as e:  # noqa
+            return "raise " + type(e).__name__
+        if msgs.errors or len(ops) != 1 or len(ops[0].tokens) != 1:
+            return None
+        return ops[0].tokens[0].value, str(ops[0])[len("INTEGER("):-1]
+
+    edge = [-32768, -32767, -256, -129, -128, -10, -9, -1, 0, 1, 7, 8, 9, 10, 99, 100, 255, 256, 999, 1000, 9999, 10000, 32767,
+            32768, 65535]
+    values = edge + [rng.randrange(-32768, 65536) for _ in range(n)]
+    terms, metas = [], []
+    for v in values:
+        r = real_value(str(v))
+        st["int_values"] += 1
+        if not isinstance(r, tuple) or r[0] != v or real_value(r[1]) != r:
+            spec_failures.append({"what": "the integer operand %d is printed as %r, which does not read back as that value"
+                                          % (v, r[1] if isinstance(r, tuple) else r)})
+            continue
+        terms.append("print_int %s" % z(v))
+        metas.append(("print", v, [ord(c) for c in r[1]]))
+    for w in [0, 1, 15, 16, 255, 256, 4095, 4096, 65535] + [rng.randrange(65536) for _ in range(n // 4)]:
+        terms.append("print_opcode_word %d" % w)
+        metas.append(("word", w, [ord(c) for c in "0x{:x}".format(w)]))
+    lits = ["0", "00", "07", "08", "09", "017", "0o17", "0O17", "0x1f", "0X1F", "0b101", "0B101", "0b2", "0o8", "0xg", "0x", "0b", "0o",
+            "-0", "-017", "-0x10", "-0b11", "-09", "1a", "65535", "65536", "99999"]
+    for _ in range(n // 2):
+        k = rng.choice([1, 1, 2, 3, 5])
+        body = "".join(rng.choice("0123456789") for _ in range(k))
+        if rng.random() < 0.5:
+            body = rng.choice(["0x", "0X", "0o", "0O", "0b", "0B", "0"]) + "".join(rng.choice("0123456789abcdefABCDEF01") for _ in range(k))
+        lits.append(("-" if rng.random() < 0.3 else "") + body)
+    for t in lits:
+        r = real_value(t)
+        st["int_literals"] += 1
+        if isinstance(r, str):
+            spec_failures.append({"what": "parsing INTEGER(%s): %s" % (t, r)})
+            continue
+        terms.append("enc_opt (read_value %s)" % zlist([ord(c) for c in t]))
+        metas.append(("read", t, [1, r[0]] if r is not None else [0]))
+    if model_available and terms:
+        outs = coqrun.eval_cases("C10i", INT_HEADER, terms, shard=400)
+        for (kind, x, want), o in zip(metas, outs):
+            if o == want:
+                st["int_model_agree"] += 1
+            else:
+                disagreements.append({"what": "integer operands vs Model/IntLit (%s)" % kind, "input": x, "impl": want, "model": o})
+    return st
 
 
 def correspondence(ctx, model_available=True):
@@ -65,6 +133,8 @@ def correspondence(ctx, model_available=True):
             else:
                 disagreements.append({"what": "string_literal vs Model/Printer", "string": s, "impl": lit,
                                       "model": "".join(chr(c) for c in o)})
+    # (1b) integer operands: printer and reader vs Model/IntLit
+    ist = intlit_correspondence(rng, 300 if quick else 4000, disagreements, spec_failures, model_available)
     # (2) whole programs through the real tool
     st = {"programs": 0, "accepted": 0}
     d = tempfile.mkdtemp(prefix="hera_rt_")
@@ -81,11 +151,13 @@ def correspondence(ctx, model_available=True):
     return {
         "cases": len(strs) + st["programs"], "nontrivial": st["accepted"],
         "rule": "strings over control characters, quotes, backslashes, bytes above 127 and characters above 255: real "
-                "op.string_literal vs Model/Printer.v, and read back by the real lexer; generated accepted programs (every "
+                "op.string_literal vs Model/Printer.v, and read back by the real lexer; integer operands over the whole operand "
+                "range and literal spellings (bases, zero-prefixed octal, invalid): printed form and parsed value vs "
+                "Model/IntLit.v, printed values parsed back on the real code; generated accepted programs (every "
                 "pseudo-op, boundary operands, symbolic operands, string data with arbitrary characters): "
                 "`hera preprocess` listing with the index column removed fed back — accepted, identical listing (fixed "
                 "point), identical `assemble --stdout` output; `preprocess --obfuscate` output assembled — identical words",
-        "distribution": {"strings": len(strs), "printer_model_agree": agree, **st},
+        "distribution": {"strings": len(strs), "printer_model_agree": agree, **st, **ist},
         "samples": [{"string": strs[12]}],
         "disagreements": disagreements[:10], "spec_failures": spec_failures[:5],
         "model_vs_impl_agree": agree, "model_available": model_available,
